@@ -474,3 +474,15 @@ func (e *Env) RunTsh(spec *simrt.WorldSpec, bin string) (*TshResult, error) {
 	}
 	return r, nil
 }
+
+// SpawnsGoroutines reports whether the code under test contains a go statement: the order of
+// its I/O calls is then not under the simulator's control (the seams are serialised, their
+// order is the scheduler's), so traces of identical plans may differ while results may not.
+func (e *Env) SpawnsGoroutines() bool {
+	for _, u := range e.Report.Unsimulated {
+		if strings.HasSuffix(u, "go statement") {
+			return true
+		}
+	}
+	return false
+}
